@@ -23,17 +23,19 @@ import (
 // parseAuditLogs skips) is sent after each record group as a barrier; a login
 // is complete when the tracker-mutex hook reports the end of RemoteLogin.
 type L2 struct {
-	W       *World
-	Gen     *auditgen.Gen
-	audits  chan string
-	logins  chan common.RemoteUserLogin
-	cancel  context.CancelFunc
-	done    chan error
-	loginOK chan struct{}
-	RetErr  error
-	Retd    bool
-	tsTag   map[int64]int
-	Lines   map[int][]string
+	W            *World
+	Gen          *auditgen.Gen
+	audits       chan string
+	logins       chan common.RemoteUserLogin
+	cancel       context.CancelFunc
+	done         chan error
+	loginOK      chan struct{}
+	loginIn      chan struct{}
+	expectReturn bool
+	RetErr       error
+	Retd         bool
+	tsTag        map[int64]int
+	Lines        map[int][]string
 }
 
 var (
@@ -48,13 +50,17 @@ func init() {
 // InstallL2Hook makes the end of sessionTracker.RemoteLogin observable.
 func InstallL2Hook() {
 	common.VerifSchedHook = func(obj any, op, phase string) {
-		if op == "RemoteLogin" && phase == "after" {
+		if op == "RemoteLogin" {
 			l2mu.Lock()
 			c := l2current
 			l2mu.Unlock()
 			if c != nil {
+				ch := c.loginOK
+				if phase == "before" {
+					ch = c.loginIn
+				}
 				select {
-				case c.loginOK <- struct{}{}:
+				case ch <- struct{}{}:
 				default:
 				}
 			}
@@ -62,23 +68,80 @@ func InstallL2Hook() {
 	}
 }
 
-func NewL2(seed int64, failAt int) *L2 {
+func NewL2(seed int64, failAt int) *L2 { return NewL2Buf(seed, failAt, 0, true) }
+
+// NewL2Buf: Audits channel of the given capacity; start=false lets the caller
+// pre-load the channel (a backlog) before Read is started with Start().
+func NewL2Buf(seed int64, failAt, capacity int, start bool) *L2 {
 	w := NewWorld(seed)
 	w.Enc.FailAt = failAt
-	l := &L2{W: w, Gen: auditgen.New(rand.New(rand.NewSource(seed ^ 0x5eed))), audits: make(chan string),
+	l := &L2{W: w, Gen: auditgen.New(rand.New(rand.NewSource(seed ^ 0x5eed))), audits: make(chan string, capacity),
 		logins: make(chan common.RemoteUserLogin), done: make(chan error, 1), loginOK: make(chan struct{}, 4),
-		tsTag: map[int64]int{}, Lines: map[int][]string{}}
-	ctx, cancel := context.WithCancel(context.Background())
-	l.cancel = cancel
-	a := auditd.Auditd{Audits: l.audits, Logins: l.logins, EventW: auditevent.NewAuditEventWriter(w.Enc), Health: health.NewHealth()}
+		loginIn: make(chan struct{}, 4), tsTag: map[int64]int{}, Lines: map[int][]string{}}
 	l2mu.Lock()
 	l2current = l
 	l2mu.Unlock()
-	go func() { l.done <- a.Read(ctx) }()
+	if start {
+		l.Start()
+	}
 	return l
 }
 
+// Start launches Auditd.Read.
+func (l *L2) Start() {
+	ctx, cancel := context.WithCancel(context.Background())
+	l.cancel = cancel
+	a := auditd.Auditd{Audits: l.audits, Logins: l.logins, EventW: auditevent.NewAuditEventWriter(l.W.Enc), Health: health.NewHealth()}
+	go func() { l.done <- a.Read(ctx) }()
+}
+
+// Preload puts a line into the (buffered) Audits channel without waiting for Read.
+func (l *L2) Preload(s string) bool {
+	select {
+	case l.audits <- s:
+		return true
+	default:
+		return false
+	}
+}
+
+// Drained reports whether the Audits channel is empty.
+func (l *L2) Drained() bool { return len(l.audits) == 0 }
+
+// WaitReturn waits for Read to return.
+func (l *L2) WaitReturn(d time.Duration) bool {
+	if l.Retd {
+		return true
+	}
+	select {
+	case err := <-l.done:
+		l.RetErr, l.Retd = err, true
+		l.cancel()
+		return true
+	case <-time.After(d):
+		return false
+	}
+}
+
+// LoginEntered is signalled when Read has entered sessionTracker.RemoteLogin
+// (before it takes the tracker's mutex).
+func (l *L2) LoginEntered() <-chan struct{} { return l.loginIn }
+
+// SendLoginAsync hands a valid login to Read without waiting for RemoteLogin to finish.
+func (l *L2) SendLoginAsync(id, pid int) bool {
+	rul := l.W.MakeLogin(id, pid)
+	select {
+	case l.logins <- rul:
+		return true
+	case <-time.After(5 * time.Second):
+		return false
+	}
+}
+
 func (l *L2) Close() {
+	if l.cancel == nil {
+		return
+	}
 	l.cancel()
 	if !l.Retd {
 		select {
@@ -114,12 +177,21 @@ func (l *L2) settle() {
 	if l.Retd {
 		return
 	}
+	// after an injected fault Read is expected to return: wait for it (a swallowed error shows as "no return")
+	d := 2 * time.Millisecond
+	if l.W.Enc.Failed() || l.expectReturn {
+		d = 1500 * time.Millisecond
+	}
 	select {
 	case err := <-l.done:
 		l.RetErr, l.Retd = err, true
-	case <-time.After(2 * time.Millisecond):
+		l.cancel() // the errgroup cancels the shared context when a worker returns
+	case <-time.After(d):
 	}
 }
+
+// ExpectReturn tells the driver that the step just performed injected a fault.
+func (l *L2) ExpectReturn() { l.expectReturn = true }
 
 // Lines of an abstract audit call.
 func (l *L2) Render(c Call) auditgen.Group {
@@ -147,10 +219,13 @@ func (l *L2) Apply(c Call) (ok bool, err error) {
 				return false, nil
 			}
 		}
-		if !l.sendLine("") { // barrier: the group has been parsed, reassembled and handed to the tracker
+		if !l.Barrier() { // the group has been parsed, reassembled and handed to the tracker
 			return false, nil
 		}
 		// a call-back error travels to Read's select loop asynchronously
+		if c.Typ == "LOGIN" && c.Pid == 0 {
+			l.expectReturn = true
+		}
 		if l.W.Enc.FailAt != 0 || (c.Typ == "LOGIN" && c.Pid == 0) {
 			l.settle()
 		}
@@ -194,6 +269,9 @@ func (l *L2) Apply(c Call) (ok bool, err error) {
 		case <-time.After(5 * time.Second):
 			return false, fmt.Errorf("RemoteLogin did not finish within 5 s")
 		}
+		if c.K == "badlogin" {
+			l.expectReturn = true
+		}
 		if c.K == "badlogin" || l.W.Enc.FailAt != 0 {
 			l.settle()
 		}
@@ -218,7 +296,28 @@ func (l *L2) RefAttrs(tag int) (res string, args bool, ok bool) {
 func (l *L2) SendRaw(s string) bool { return l.sendLine(s) }
 
 // Barrier returns once the parse goroutine has finished everything sent before.
-func (l *L2) Barrier() bool { return l.sendLine("") }
+func (l *L2) Barrier() bool {
+	if !l.sendLine("") {
+		return false
+	}
+	if cap(l.audits) > 0 {
+		// buffered: the parser has finished everything before the empty line once it has TAKEN the empty line
+		dl := time.Now().Add(5 * time.Second)
+		for len(l.audits) > 0 {
+			if time.Now().After(dl) {
+				return false
+			}
+			select {
+			case err := <-l.done:
+				l.RetErr, l.Retd = err, true
+				return false
+			default:
+			}
+			time.Sleep(50 * time.Microsecond)
+		}
+	}
+	return true
+}
 
 // Settle waits briefly for a pending return of Read to become visible.
 func (l *L2) Settle() { l.settle() }
